@@ -35,14 +35,19 @@ import (
 type c29Case struct {
 	Start  string   `json:"start"` // "create" | "createP"
 	Gate   string   `json:"gate"`  // "" | "beta.Transition" | "alpha.Scan" | ...: first such call is held until "release"
+	Arm    string   `json:"arm"`   // "" = the gate is armed from the start (it holds the session's first cycle); "after-create" = armed once Create has returned and the first cycle is over (so that it holds a later, e.g. flush-triggered, cycle); "event" = armed by the harness event "arm"
 	Events []string `json:"events"`
 }
 
 func (c c29Case) key() string {
-	return c.Start + "/" + c.Gate + ":" + strings.Join(c.Events, ",")
+	g := c.Gate
+	if c.Arm != "" {
+		g += "@" + c.Arm
+	}
+	return c.Start + "/" + g + ":" + strings.Join(c.Events, ",")
 }
 
-var c29Events = []string{"pause", "resume", "flushW", "flushN", "reset", "terminate", "restart", "edit", "adv2s", "release"}
+var c29Events = []string{"pause", "resume", "flushW", "flushN", "reset", "terminate", "restart", "edit", "adv2s", "arm", "release"}
 
 type c29Verdict struct {
 	Infra      string
@@ -74,6 +79,7 @@ type c29Sess struct {
 	flushes    []*c29Flush
 	resets     []*c29Reset
 	terminated bool // a Terminate call has returned nil
+	armed      bool // the "arm" event has been used
 }
 
 func (s *c29Sess) obs(format string, args ...any) {
@@ -109,6 +115,10 @@ func (s *c29Sess) enabled() []string {
 		switch ev {
 		case "release":
 			if !held {
+				continue
+			}
+		case "arm":
+			if s.c.Arm != "event" || s.armed {
 				continue
 			}
 		case "edit", "adv2s":
@@ -182,6 +192,11 @@ func (s *c29Sess) do(ev string) {
 		time.Sleep(2 * time.Second)
 	case "release":
 		w.releaseGates()
+	case "arm":
+		s.armed = true
+		w.mu.Lock()
+		w.gateArmed[s.c.Gate] = true
+		w.mu.Unlock()
 	default:
 		s.v.Infra = "unknown event " + ev
 	}
@@ -451,7 +466,7 @@ func runC29(t *testing.T, base string, c c29Case, verbose func(string, ...any)) 
 		w.st.stamp(p)
 		w.st.stamp(w.alphaRoot)
 		w.st.stamp(w.betaRoot)
-		if c.Gate != "" {
+		if c.Gate != "" && c.Arm == "" {
 			w.gateArmed[c.Gate] = true
 		}
 		if err := w.newManager(); err != nil {
@@ -465,6 +480,11 @@ func runC29(t *testing.T, base string, c c29Case, verbose func(string, ...any)) 
 		if !call.returned || call.Err != nil {
 			v.Infra = fmt.Sprintf("create: returned=%v err=%v", call.returned, call.Err)
 			return
+		}
+		if c.Gate != "" && c.Arm == "after-create" {
+			w.mu.Lock()
+			w.gateArmed[c.Gate] = true
+			w.mu.Unlock()
 		}
 		for _, ev := range c.Events {
 			ok := false
@@ -539,12 +559,16 @@ func init() {
 	}
 }
 
-type c29Scenario struct{ Start, Gate string }
+type c29Scenario struct{ Start, Gate, Arm string }
 
 func c29Scenarios(thorough bool) []c29Scenario {
-	out := []c29Scenario{{"create", ""}, {"create", "beta.Transition"}, {"createP", ""}}
+	// The scenario in which overlapping flushes meet a held flush-triggered
+	// cycle comes first so that a budget cut never loses it.
+	out := []c29Scenario{{"create", "alpha.Scan", "after-create"}, {"create", "", ""}, {"create", "beta.Transition", ""}, {"createP", "", ""}}
 	if thorough {
-		out = append(out, c29Scenario{"create", "alpha.Scan"}, c29Scenario{"createP", "beta.Transition"}, c29Scenario{"createP", "alpha.Scan"})
+		out = append(out, c29Scenario{"create", "alpha.Scan", ""}, c29Scenario{"create", "beta.Transition", "after-create"},
+			c29Scenario{"create", "beta.Transition", "event"},
+			c29Scenario{"createP", "beta.Transition", ""}, c29Scenario{"createP", "alpha.Scan", ""})
 	}
 	return out
 }
@@ -595,19 +619,19 @@ func c29Worker(t *testing.T, job *swJob, out *swOutput) {
 			return
 		}
 		for _, ev := range enabled {
-			dfs(c29Case{c.Start, c.Gate, append(append([]string{}, c.Events...), ev)})
+			dfs(c29Case{c.Start, c.Gate, c.Arm, append(append([]string{}, c.Events...), ev)})
 		}
 	}
 	// Shards: (scenario, first event, second event), dealt round-robin; the
 	// shorter histories are visited by shard 0.
 	idx := 0
 	for _, sc := range c29Scenarios(job.Thorough) {
-		root := c29Case{sc.Start, sc.Gate, nil}
+		root := c29Case{sc.Start, sc.Gate, sc.Arm, nil}
 		if job.Shard == 0 {
 			visit(root)
 		}
 		for _, e1 := range c29Events {
-			c1 := c29Case{sc.Start, sc.Gate, []string{e1}}
+			c1 := c29Case{sc.Start, sc.Gate, sc.Arm, []string{e1}}
 			for _, e2 := range c29Events {
 				idx++
 				if idx%job.Shards != job.Shard {
@@ -617,12 +641,12 @@ func c29Worker(t *testing.T, job *swJob, out *swOutput) {
 				if !c29Valid(t, base, c1, e2, out) {
 					continue
 				}
-				dfs(c29Case{sc.Start, sc.Gate, []string{e1, e2}})
+				dfs(c29Case{sc.Start, sc.Gate, sc.Arm, []string{e1, e2}})
 			}
 		}
 		if job.Shard == 0 {
 			for _, e1 := range c29Events {
-				c1 := c29Case{sc.Start, sc.Gate, []string{e1}}
+				c1 := c29Case{sc.Start, sc.Gate, sc.Arm, []string{e1}}
 				if c29Valid(t, base, root, e1, out) {
 					visit(c1)
 				}
@@ -635,7 +659,7 @@ func c29Worker(t *testing.T, job *swJob, out *swOutput) {
 // must be valid or the answer is false).
 func c29Valid(t *testing.T, base string, c c29Case, ev string, out *swOutput) bool {
 	if len(c.Events) > 0 {
-		if !c29Valid(t, base, c29Case{c.Start, c.Gate, c.Events[:len(c.Events)-1]}, c.Events[len(c.Events)-1], out) {
+		if !c29Valid(t, base, c29Case{c.Start, c.Gate, c.Arm, c.Events[:len(c.Events)-1]}, c.Events[len(c.Events)-1], out) {
 			return false
 		}
 	}
@@ -681,7 +705,7 @@ func TestC29(t *testing.T) {
 		"'complete cycle that started after the request' is read as: both endpoints began a scan between request and return, no staging/transition of that cycle follows the return, and alpha's content at request time is on beta",
 		"granularity: harness events at quiescence only; interleavings inside one quiescence step are not owned (divergent_replays counts observed differences; the two wordings controller.flush's select can give the same failure are folded into one observation)")
 	dir := scratchDir(t)
-	deadline := vr.Deadline(50*time.Second, 9*time.Minute).Unix()
+	deadline := scaledDeadline(50*time.Second, 9*time.Minute).Unix()
 	n := vr.Workers()
 	var jobs []swJob
 	for i := 0; i < n; i++ {
@@ -710,7 +734,7 @@ func TestC29(t *testing.T) {
 	} else if tot.Divergent > 0 {
 		r.NotExhaustive(fmt.Sprintf("%d histories gave different observations on their second replay", tot.Divergent))
 	}
-	r.Sample(c29Case{"create", "beta.Transition", []string{"pause", "release", "adv2s"}})
-	r.Sample(c29Case{"create", "", []string{"edit", "flushW", "terminate", "restart"}})
-	r.Sample(c29Case{"createP", "", []string{"reset", "restart", "resume"}})
+	r.Sample(c29Case{"create", "beta.Transition", "", []string{"pause", "release", "adv2s"}})
+	r.Sample(c29Case{"create", "alpha.Scan", "after-create", []string{"flushN", "flushW", "release"}})
+	r.Sample(c29Case{"createP", "", "", []string{"reset", "restart", "resume"}})
 }
